@@ -266,10 +266,12 @@ theorem parseStr_escByte (fuel : Nat) (b : UInt8) (rest acc : Bytes) (hb : b.toN
                 · simp only [hu, if_true, List.cons_append, List.nil_append]
                   have hx1 := hexv_hexLower (b.toNat / 16) (by omega)
                   have hx2 := hexv_hexLower (b.toNat % 16) (by omega)
-                  have hlt : b.toNat / 16 * 16 + b.toNat % 16 < 128 := by omega
-                  have hbb : UInt8.ofNat (b.toNat / 16 * 16 + b.toNat % 16) = b := by
-                    apply u8_eq_of_toNat; rw [UInt8.toNat_ofNat']; omega
-                  simp [parseStr, hx1, hx2, hlt, hbb]
+                  have hx0 : hexv 48 = some 0 := by decide
+                  have hcp : b.toNat / 16 * 16 + b.toNat % 16 = b.toNat := by omega
+                  have hns : ¬ (55296 ≤ b.toNat ∧ b.toNat ≤ 57343) := by omega
+                  have hutf : utf8Enc b.toNat = [b] := by
+                    simp [utf8Enc, hb]
+                  simp [parseStr, hx0, hx1, hx2, hcp, hns, hutf]
                 · simp only [hu, if_false, List.cons_append, List.nil_append]
                   have hp : PlainByte b := by
                     refine ⟨?_, hb, h34, h92⟩
@@ -360,31 +362,60 @@ theorem member_append (key val next : Bytes) :
     member key val ++ next = 34 :: (key ++ 34 :: 58 :: (val ++ next)) := by
   simp [member, List.append_assoc]
 
+theorem skipWs_cons (c : UInt8) (r : Bytes) (h : isWs c = false) : skipWs (c :: r) = c :: r := by
+  simp [skipWs, h]
+
+theorem skipWs_nil : skipWs [] = [] := rfl
+
 /-- One `"key":value` member followed by `,` and more members. -/
 theorem parseMembers_member (fuel : Nat) (key val r4 : Bytes) (tok : Tok) (f f' : Fields)
     (hk : key.flatMap escByte = key) (hka : ∀ b ∈ key, b.toNat < 128)
+    (hval : skipWs (val ++ 44 :: r4) = val ++ 44 :: r4)
     (hv : parseValue (val ++ 44 :: r4) = .ok (tok, 44 :: r4)) (hset : setField f key tok = .ok f') :
     parseMembers (fuel + 1) (member key val ++ 44 :: r4) f = parseMembers fuel r4 f' := by
-  rw [member_append, parseMembers]
+  rw [member_append, parseMembers, skipWs_cons 34 _ (by decide)]
   have hs := parseStr_string key ((key ++ 34 :: 58 :: (val ++ 44 :: r4)).length + 1) (58 :: (val ++ 44 :: r4)) [] hka
     (by simp only [List.length_append, List.length_cons]; omega)
   rw [hk] at hs
   simp only [hs, List.reverse_nil, List.nil_append]
+  rw [skipWs_cons 58 _ (by decide)]
+  simp only [hval]
   rw [hv]
   simp only [hset]
+  rw [skipWs_cons 44 _ (by decide)]
+  simp
 
 /-- The last member, followed by the closing brace. -/
 theorem parseMembers_last (fuel : Nat) (key val : Bytes) (tok : Tok) (f f' : Fields)
     (hk : key.flatMap escByte = key) (hka : ∀ b ∈ key, b.toNat < 128)
+    (hval : skipWs (val ++ [125]) = val ++ [125])
     (hv : parseValue (val ++ [125]) = .ok (tok, [125])) (hset : setField f key tok = .ok f') :
     parseMembers (fuel + 1) (member key val ++ [125]) f = .ok f' := by
-  rw [member_append, parseMembers]
+  rw [member_append, parseMembers, skipWs_cons 34 _ (by decide)]
   have hs := parseStr_string key ((key ++ 34 :: 58 :: (val ++ [125])).length + 1) (58 :: (val ++ [125])) [] hka
     (by simp only [List.length_append, List.length_cons]; omega)
   rw [hk] at hs
   simp only [hs, List.reverse_nil, List.nil_append]
+  rw [skipWs_cons 58 _ (by decide)]
+  simp only [hval]
   rw [hv]
   simp only [hset]
+  rw [skipWs_cons 125 _ (by decide)]
+  simp [skipWs_nil]
+
+theorem skipWs_jsonString (s rest : Bytes) : skipWs (jsonString s ++ rest) = jsonString s ++ rest := by
+  simp only [jsonString, List.cons_append]
+  exact skipWs_cons 34 _ (by decide)
+
+theorem skipWs_digit (n : Nat) (h1 : 1 ≤ n) (h9 : n ≤ 9) (rest : Bytes) : skipWs (itoa n ++ rest) = itoa n ++ rest := by
+  rw [itoa_digit n (by omega), List.singleton_append]
+  apply skipWs_cons
+  have hd : (UInt8.ofNat (48 + n)).toNat = 48 + n := by rw [UInt8.toNat_ofNat']; omega
+  generalize UInt8.ofNat (48 + n) = d at hd
+  have a1 : d ≠ 32 := by intro h; subst h; simp at hd; omega
+  have a2 : d ≠ 9 := by intro h; subst h; simp at hd; omega
+  have a3 : d ≠ 13 := by intro h; subst h; simp at hd; omega
+  simp [isWs, a1, a2, a3]
 
 theorem b64Enc_ascii (x : Bytes) : ∀ b ∈ b64Enc x, b.toNat < 128 := by
   intro b hb
@@ -419,10 +450,10 @@ theorem parseMembers_tail (fuel : Nat) (kw cph : Nat) (wfk np : Bytes) (f : Fiel
       (.str (b64Enc np)) =
       .ok { f with kw := some (.num kw), wfk := some (.str (b64Enc wfk)), cph := some (.num cph), np := some (.str (b64Enc np)) } := by
     simp [setField, f4, kK, kKW, kWFK, kCPH, kNP]
-  rw [parseMembers_member (fuel + 3) kKW _ _ (.num kw) f _ h2a h2b (parseValue_digit kw hkw.1 hkw.2 44 (Or.inl rfl) _) s1]
-  rw [parseMembers_member (fuel + 2) kWFK _ _ (.str (b64Enc wfk)) _ _ h3a h3b (parseValue_string _ _ (b64Enc_ascii wfk)) s2]
-  rw [parseMembers_member (fuel + 1) kCPH _ _ (.num cph) _ _ h4a h4b (parseValue_digit cph hcph.1 hcph.2 44 (Or.inl rfl) _) s3]
-  rw [parseMembers_last fuel kNP _ (.str (b64Enc np)) _ _ h5a h5b (parseValue_string _ _ (b64Enc_ascii np)) s4]
+  rw [parseMembers_member (fuel + 3) kKW _ _ (.num kw) f _ h2a h2b (skipWs_digit kw hkw.1 hkw.2 _) (parseValue_digit kw hkw.1 hkw.2 44 (Or.inl rfl) _) s1]
+  rw [parseMembers_member (fuel + 2) kWFK _ _ (.str (b64Enc wfk)) _ _ h3a h3b (skipWs_jsonString _ _) (parseValue_string _ _ (b64Enc_ascii wfk)) s2]
+  rw [parseMembers_member (fuel + 1) kCPH _ _ (.num cph) _ _ h4a h4b (skipWs_digit cph hcph.1 hcph.2 _) (parseValue_digit cph hcph.1 hcph.2 44 (Or.inl rfl) _) s3]
+  rw [parseMembers_last fuel kNP _ (.str (b64Enc np)) _ _ h5a h5b (skipWs_jsonString _ _) (parseValue_string _ _ (b64Enc_ascii np)) s4]
 
 
 theorem valid_parts (P : EncParams) (m : Manifest) (hm : m.valid P = true) :
@@ -455,7 +486,7 @@ theorem parseManifest_render (P : EncParams) (hids : ∀ n, n ∈ P.kwIds ∨ n 
     · simp only [he, Bool.false_eq_true, if_false, List.append_assoc, List.singleton_append]
       have s0 : setField {} kK (.str m.keyName) = .ok { k := some (.str m.keyName) } := by
         simp [setField, kK]
-      rw [parseMembers_member (fuel + 4) kK _ _ (.str m.keyName) {} _ h1a h1b (parseValue_string _ _ hk) s0]
+      rw [parseMembers_member (fuel + 4) kK _ _ (.str m.keyName) {} _ h1a h1b (skipWs_jsonString _ _) (parseValue_string _ _ hk) s0]
       rw [parseMembers_tail fuel m.kw m.cph m.wfk m.np _ dkw dcph ⟨rfl, rfl, rfl, rfl⟩]
   -- the object
   unfold renderManifest parseManifest
@@ -466,10 +497,18 @@ theorem parseManifest_render (P : EncParams) (hids : ∀ n, n ∈ P.kwIds ∨ n 
     rw [← hrest]
     simp only [List.length_append, List.length_cons, member]
     omega
-  have hne : rest ≠ [125] := by
-    intro h; rw [h] at hlen; simp at hlen
+  have hhead : ∃ t, rest = 34 :: t := by
+    rw [← hrest]
+    by_cases he : m.keyName.isEmpty = true
+    · simp only [he, if_true, List.nil_append, member, List.cons_append]; exact ⟨_, rfl⟩
+    · simp only [he, Bool.false_eq_true, if_false, member, List.cons_append]; exact ⟨_, rfl⟩
   obtain ⟨fuel, hfuel⟩ : ∃ fuel, rest.length + 1 = fuel + 5 := ⟨rest.length + 1 - 5, by omega⟩
-  simp only [hne, if_false, hfuel, hmem fuel]
+  rw [skipWs_cons 123 _ (by decide)]
+  obtain ⟨t, ht⟩ := hhead
+  rw [ht] at hfuel hmem ⊢
+  simp only []
+  rw [skipWs_cons 34 _ (by decide)]
+  simp only [hfuel, hmem fuel]
   have hb1 : b64Dec (b64Enc m.wfk) = some m.wfk := b64Dec_b64Enc _
   have hb2 : b64Dec (b64Enc m.np) = some m.np := b64Dec_b64Enc _
   by_cases he : m.keyName.isEmpty = true
@@ -477,6 +516,7 @@ theorem parseManifest_render (P : EncParams) (hids : ∀ n, n ∈ P.kwIds ∨ n 
     simp only [he, if_true, idField, hkw, hcph, bytesField, hb1, hb2]
     cases m; simp_all
   · simp only [he, Bool.false_eq_true, if_false, idField, hkw, hcph, bytesField, hb1, hb2, if_true]
+    rfl
 
 
 /-! ### no line feed inside the rendered lines -/
